@@ -44,7 +44,7 @@ ENGINES = [
 ]
 NOTES = ("Technique family: machine-checked proof in Lean 4 over hand-written executable models, tied to /repo by a "
          "differential correspondence check on every run (DESIGN.md, as-built report in section 12). All 20 properties are "
-         "claimed; known findings (C08 concurrent-spawn-window, C14 capture-start-failure-keeps-stderr-reader-while-waiting, "
+         "claimed; known findings (C08 concurrent-spawn-window, "
          "C19 command-is-sh-reserved-word) are listed in known_findings.json and reported as KNOWN-FINDING lines. Run one check "
          "at a time: checks share /repo's working tree, the cargo target directory and the evidence files.")
 COMMON_NOTE = ("Trusted: Lean kernel; axioms propext/Classical.choice/Quot.sound only (audited each run); the hand-written "
@@ -281,9 +281,9 @@ CLAIMED["C14"] = {
                  "a missing program at every position, and a hang watchdog",
     "text": "c14_partial_start_cleans_up: for every length n, failing position k < n, terminator, stdin/stdout kind, detached flags -- "
             "the error is returned once, exactly commands 0..k-1 were started, each non-detached one is waited for exactly once, at "
-            "every such wait the parent holds no pipe end of the attempt (except the shared-stderr reader in Pipeline::capture: "
-            "c14_capture_keeps_stderr_reader proves that exception is real -- recorded as a known finding), and nothing of the attempt is "
+            "every such wait the parent holds no pipe end of the attempt (no exception: the shared-stderr reader of Pipeline::capture, "
+            "formerly a known finding, is released first since fix bba93ff; c14_capture_old_order_counterexample keeps the old order as a witness), and nothing of the attempt is "
             "held on return; c14_nothing_held_at_waits, c14_cleanup_waits_with_nothing_held_unstarted (the same with ends still sitting in the commands never started, e.g. the pipeline's own stdout file being a caller-made pipe -- run on the real code as the ring=1 cases), c14_cleanup_waits_with_nothing_held (for arbitrary ends owned by the started Popens, e.g. a command's own stderr pipe: release all, then wait -- genuine defect F14 repaired by fix e678f50); c14_communicate_never_waits.",
-    "note": PIPE_NOTE + " Known finding: C14 capture-start-failure-keeps-stderr-reader-while-waiting.",
+    "note": PIPE_NOTE + " The former known finding C14 capture-start-failure-keeps-stderr-reader-while-waiting is repaired (fix bba93ff in /repo; known_findings.json: fixed).",
 }
 NOT_CLAIMED = {}
